@@ -204,6 +204,47 @@ def validate_traces(module: str, records: list[dict], *, shards: int | None = No
 validate_traces.last_states = 0
 validate_traces.last_transitions = 0
 
+ORACLE_RE = re.compile(r'^<<"X", (\d+), (".*")>>$')
+
+
+def run_oracle(module: str, records: list[dict], *, shards: int | None = None, timeout: int = 900) -> list:
+    """Spec as oracle: the trace spec prints <<"X", l, ToJson(expected)>> per record; returns the decoded expectations."""
+    if not records:
+        return []
+    if shards is None:
+        shards = max(1, min(NCPU, len(records) // 20 + 1))
+    buckets = [list(range(k, len(records), shards)) for k in range(shards)]
+    buckets = [b for b in buckets if b]
+    tmp = scratch('oracle-')
+    try:
+        def one(k):
+            f = tmp / f'shard{k}.ndjson'
+            with open(f, 'w') as fh:
+                for i in buckets[k]:
+                    fh.write(json.dumps(records[i], separators=(',', ':')) + '\n')
+            r = run_tlc(module, None, workers=1, env={'TRACE_FILE': str(f)}, timeout=timeout)
+            xs = {}
+            for ln in r.out.splitlines():
+                m = ORACLE_RE.match(ln.strip())
+                if m:
+                    xs[int(m.group(1))] = json.loads(json.loads(m.group(2)))
+            if not r.completed or len(xs) != len(buckets[k]):
+                raise Machinery(f'oracle spec {module} shard {k}: completed={r.completed} outputs={len(xs)}/{len(buckets[k])}\n{r.out[-4000:]}')
+            return k, xs, r
+        out: list = [None] * len(records)
+        st = tr = 0
+        with ThreadPoolExecutor(max_workers=len(buckets)) as ex:
+            for k, xs, r in ex.map(one, range(len(buckets))):
+                for pos, i in enumerate(buckets[k], start=1):
+                    out[i] = xs[pos]
+                st += r.distinct
+                tr += r.generated
+        validate_traces.last_states = st
+        validate_traces.last_transitions = tr
+        return out
+    finally:
+        shutil.rmtree(tmp, ignore_errors=True)
+
 
 # ----------------------------------------------------------------------------
 # Known findings
